@@ -20,7 +20,7 @@ static char last_begin[512];
 /* recording allocator: ids, canaries, always-moving realloc, poison    */
 #define CAN 64
 #define CANBYTE 0xC5
-typedef struct blk { void *p; size_t sz; long id; struct blk *next; } blk;
+typedef struct blk { void *p; size_t sz; long id; int priv; struct blk *next; } blk;
 #define HB 4096
 static blk *htab[HB];
 static long next_id = 0;
@@ -33,7 +33,7 @@ static blk *blk_find(void *p, int remove) {
 }
 static void blk_add(void *p, size_t sz, long id) {
   blk *b = malloc(sizeof *b); unsigned h = hidx(p);
-  b->p = p; b->sz = sz; b->id = id; b->next = htab[h]; htab[h] = b;
+  b->p = p; b->sz = sz; b->id = id; b->priv = !alloc_log; b->next = htab[h]; htab[h] = b;
 }
 static void *raw_new(size_t n) {
   unsigned char *r = malloc(n + 2 * CAN);
@@ -84,8 +84,8 @@ static void canary_sweep(void) {
 long rec_live_blocks(void) { return live_blocks; }
 void rec_alloc_logging(int on) { alloc_log = on; }
 static void heap_forget(void) {
-  int h; for (h = 0; h < HB; h++) { blk *b = htab[h]; while (b) { blk *n = b->next; free(b); b = n; } htab[h] = NULL; }
-  live_blocks = 0;   /* blocks themselves are leaked deliberately (an execution was abandoned) */
+  int h; live_blocks = 0;
+  for (h = 0; h < HB; h++) { blk *b = htab[h], *keep = NULL; while (b) { blk *n = b->next; if (b->priv) { b->next = keep; keep = b; live_blocks++; } else free(b); b = n; } htab[h] = keep; }   /* blocks themselves are leaked deliberately (an execution was abandoned) */
 }
 
 /* ------------------------------------------------------------------ */
@@ -266,6 +266,7 @@ static void pool_diff_emit(void) {
 void rec_reset(const char *drv, long exec_id, unsigned long seed) {
   int i;
   heap_forget();
+  mpf_set_default_prec(64);      /* documented global: back to its initial value, as MPIR!Reset assumes */
   for (i = 0; i < NZ; i++) zlive[i] = 0; for (i = 0; i < NQ; i++) qlive[i] = 0;
   for (i = 0; i < NF; i++) flive[i] = 0; for (i = 0; i < NR; i++) rlive[i] = 0;
   pool_sync();
